@@ -157,6 +157,13 @@ def run(ctx):
         ctx.note('%d end-to-end cases report issue sets different from the algorithm spec prediction (drift, not a verdict)' % drift)
     rej = ctx.judge('Trace_C17', ev)
     ctx.traces += len(ev) - len(rej)
+    bad = {i for i, _ in rej}
+    good = [e for i, e in enumerate(ev) if i not in bad]
+    ctx.selftest(lambda b: ctx.judge('Trace_C17', b), good[::53] + [e for e in good if e['k'] == 'e2e'][:40],
+                 [('classification of an issue value', lambda e: dict(e, got=not e['got']) if e['k'] == 'fails' and isinstance(e['got'], bool) else None),
+                  ('truthiness of a result object', lambda e: dict(e, truthy=not e['truthy']) if e['k'] == 'result' else None),
+                  ('expired key reported truthy', lambda e: dict(e, truthy=True, bad=[], good=list(range(1, e['n'] + 1))) if e['k'] == 'e2e' and e['expired'] and not e['raised'] else None),
+                  ('a signature listed twice', lambda e: dict(e, good=e['good'] + e['good'][:1]) if e['k'] == 'e2e' and e['good'] else None)], 'C17')
     ctx.extra['function_level_events'] = nf
     ctx.extra['end_to_end_scenarios'] = len(e2e)
     ctx.extra['end_to_end_raised'] = sum(1 for e in e2e if e['raised'])
